@@ -504,6 +504,8 @@ fn templates() -> Vec<(&'static str, Vec<Piece>)> {
     ("path-head", vec![N(0), T(" * "), C, T(".fld")]),
     ("path-head", vec![T("["), C, T("][1].fld")]),
     ("comment", vec![N(0), T(" /* c */ + "), N(1)]),
+    ("comment", vec![N(0), T(" /* c */ /* d */ // e\n /* f */ + "), N(1)]),
+    ("comment", vec![T("/* a */ /* b */ "), N(0), T(" /* c *//* d */")]),
     ("comment", vec![N(0), T(" // c\n + "), N(1)]),
   ]
 }
@@ -580,7 +582,7 @@ pub fn run(cfg: &Cfg) -> Report {
   let mut eval_cases: Vec<EvalCase> = vec![];
   let followers = ["", " ", " in [1]", " between 1 and 2", "[1]", "(1)", ".x", " . x", " + 1", "+1", "-1", " - 1", "*2", "/2", "'", ")", " then 1", " else 1", ", 1", ": 1", " 1", " q", "..3", " instance of number", "}", "]", " = 1", "<1", " and true", "\n"];
 
-  // fixed witnesses of finding F19 (always run): a bound name with adjacent additional symbols,
+  // regression witnesses of F19 (repaired by b9aabe3; always run): a bound name with adjacent additional symbols,
   // one with a trailing symbol, each followed by ` + 1`
   for parts in [vec!["a", "+", "-", "b"], vec!["a", "+"]] {
     let parts: Vec<String> = parts.iter().map(|s| s.to_string()).collect();
